@@ -284,3 +284,126 @@ func runConvert(c Case, e *env) []Event {
 	count("walks")
 	return append(evs, Event{"ev": "Return", "run": c.ID, "obs": map[string]interface{}{"err": out.err != nil}})
 }
+
+// ---- the "render" family: fidelity binding of spec/Render.tla -----------------------
+// The final element list of the real run (kinds and content flags after the three document
+// filters, from the DocFilter hook) and the distilled HTML (Result.Node) as a sequence of
+// open / close / words-of-node / media items go to spec/trace/RenderTrace.tla, which renders
+// the model's element list with the same flags and compares.
+
+func init() { register("REND", runRender) }
+
+var mediaKindOfTag = map[string]string{"img": "IMG", "picture": "IMG", "figure": "FIG", "video": "VID", "table": "DT"}
+
+func renderItems(root *html.Node, a *abstraction) []map[string]interface{} {
+	items := []map[string]interface{}{}
+	add := func(t, k string, n int) { items = append(items, map[string]interface{}{"t": t, "k": k, "n": n}) }
+	seen := map[int]bool{}
+	var walk func(n *html.Node)
+	walk = func(n *html.Node) {
+		switch n.Type {
+		case html.TextNode:
+			for _, tok := range tokensOf(n.Data) {
+				if idx, ok := a.tokNode[tok]; ok && !seen[idx] {
+					seen[idx] = true
+					add("w", "", idx)
+				}
+			}
+			return
+		case html.ElementNode:
+		default:
+			return
+		}
+		tag := n.Data
+		if k, ok := mediaKindOfTag[tag]; ok {
+			add("m", k, 0)
+			return
+		}
+		if cls, _ := attr(n, "class"); tag == "div" && strings.Contains(cls, "embed-placeholder") {
+			if t, _ := attr(n, "data-type"); t == "twitter" {
+				add("m", "TW", 0)
+			} else {
+				add("m", "EMB", 0)
+			}
+			return
+		}
+		if tag == "br" {
+			return
+		}
+		k, ok := tagKind[tag]
+		if !ok {
+			if inlineTags[tag] {
+				k = "INL"
+			} else {
+				k = "?" + tag
+			}
+		}
+		add("open", k, 0)
+		for c := n.FirstChild; c != nil; c = c.NextSibling {
+			walk(c)
+		}
+		add("close", k, 0)
+	}
+	for c := root.FirstChild; c != nil; c = c.NextSibling {
+		walk(c)
+	}
+	return items
+}
+
+func runRender(c Case, e *env) []Event {
+	g := newDocGen(e.seed, c.ID)
+	g.canonical = false
+	g.noTitle = true // no <title>: no block is dropped as a repetition of the title
+	place := docPlaces[(c.ID+int(e.seed))%len(docPlaces)]
+	forest := buildForest(c.Nodes)
+	page := g.page(forest, place)
+	doc, err := html.Parse(strings.NewReader(page))
+	if err != nil {
+		return []Event{{"ev": "Skip", "run": c.ID, "why": "unparseable"}}
+	}
+	root := findElement(doc, "html")
+	a := abstractTree(root)
+	if !a.supported {
+		count("unsupported_" + strings.Fields(a.why)[0])
+		return []Event{{"ev": "Skip", "run": c.ID, "why": a.why}}
+	}
+	out := applyTree(doc, OptSpec{Skip: true})
+	call := Event{"ev": "Call", "run": c.ID, "prop": e.prop, "adoc": a.nodes}
+	if showInputs {
+		call["html"] = page
+	}
+	if ev, bad := outcomeEvent(c.ID, out); bad {
+		return []Event{call, ev}
+	}
+	if out.err != nil || out.res == nil || out.res.Node == nil {
+		return []Event{call, {"ev": "Return", "run": c.ID, "obs": map[string]interface{}{"err": true}}}
+	}
+	// the last pass and the element list after the last filter
+	lastPass := 0
+	var final []map[string]interface{}
+	for _, h := range out.hooks {
+		kv := hookKV(h)
+		switch h.Name {
+		case "Pass":
+			if n, ok := kv["n"].(int); ok {
+				lastPass = n
+			}
+		case "DocFilter":
+			if fmt.Sprint(kv["name"]) == "NestedElementRetainer" {
+				final = elemList(kv["elems"])
+			}
+		}
+	}
+	if lastPass == 0 || final == nil {
+		return []Event{call, {"ev": "Skip", "run": c.ID, "why": "no filter events"}}
+	}
+	flags := make([]bool, len(final))
+	kinds := make([]string, len(final))
+	for i, el := range final {
+		flags[i] = el["c"] == true
+		kinds[i] = fmt.Sprint(el["k"])
+	}
+	count("renders")
+	rend := Event{"ev": "Render", "run": c.ID, "skip": lastPass == 1, "flags": flags, "kinds": kinds, "items": renderItems(out.res.Node, a)}
+	return []Event{call, rend, {"ev": "Return", "run": c.ID, "obs": map[string]interface{}{"err": false}}}
+}
